@@ -27,8 +27,11 @@ EXTENDS Naturals, Integers, Sequences, FiniteSets, TLC, Json
 Leaves    == {"S", "W", "N", "OS", "VS", "BW"}
 KeyLeaves == {"S", "N"}            \* usable where Hash / Ord is needed (Gc<T> compares through T)
 CopyLeaves == {"S", "W", "N", "OS"}  \* usable inside Lock<T: Copy>
-LStrong(l) == CASE l = "S" -> 1 [] l = "OS" -> 1 [] l = "VS" -> 2 [] OTHER -> 0
-LWeak(l)   == CASE l = "W" -> 1 [] l = "BW" -> 1 [] OTHER -> 0
+\* recursive leaves (derived types only): the field's type mentions the type being derived
+\* R0 Option<Gc<Self>> = None   R1 Option<Gc<Self>> = Some(..)   RW Option<GcWeak<Self>> = Some(..)
+RecLeaves == {"R0", "R1", "RW"}
+LStrong(l) == CASE l = "S" -> 1 [] l = "OS" -> 1 [] l = "VS" -> 2 [] l = "R1" -> 1 [] OTHER -> 0
+LWeak(l)   == CASE l = "W" -> 1 [] l = "BW" -> 1 [] l = "RW" -> 1 [] OTHER -> 0
 LNeeds(l)  == l # "N"
 
 \* ---------------------------------------------------------------- provided containers (C16)
@@ -94,7 +97,7 @@ ValidTuple(sh) == sh.pos <= sh.arity /\ (sh.pos = 0 => sh.leaf = "S")
 \* ---------------------------------------------------------------- derived types (C15)
 \* struct: named / tuple / unit, fields with a leaf each, some marked require_static (only N may be)
 \* enum:   variants unit / tuple(leaf) / named{leaf, leaf}; one of them is the active one
-DLeaves == {"S", "W", "N", "VS"}
+DLeaves == {"S", "W", "N", "VS"} \cup RecLeaves
 DeriveShapes ==
   {[kind |-> "struct", style |-> st, fields |-> fs, rs |-> r, generic |-> g] :
      st \in {"named", "tuple"}, fs \in UNION {[1..k -> DLeaves] : k \in 1..3}, r \in SUBSET (1..3), g \in {"none", "param", "bound"}}
@@ -106,8 +109,12 @@ ValidDerive(sh) ==
   THEN /\ sh.rs \subseteq DOMAIN sh.fields
        /\ \A i \in sh.rs : sh.fields[i] = "N"               \* require_static needs a 'static field type
        /\ sh.generic # "none" => sh.style = "named" /\ Len(sh.fields) >= 1
+       \* self-referential shapes (linked lists, trees): at most one recursive field, no type parameter
+       /\ Cardinality({i \in DOMAIN sh.fields : sh.fields[i] \in RecLeaves}) <= 1
+       /\ (\E i \in DOMAIN sh.fields : sh.fields[i] \in RecLeaves) => sh.generic = "none"
   ELSE \* enum E { Unit, Tup(a), Named { x: b, y: c } }; field y may be require_static (then c = N)
-       2 \in sh.rs => sh.c = "N"
+       /\ 2 \in sh.rs => sh.c = "N"
+       /\ Cardinality({x \in {"a", "b", "c"} : sh[x] \in RecLeaves}) <= 1
 
 Shapes == {s \in ContainerShapes : ValidContainer(s)} \cup {s \in TupleShapes : ValidTuple(s)}
           \cup {s \in DeriveShapes : ValidDerive(s)}
